@@ -88,8 +88,51 @@ def _mro(klass, g):
     g.fp(klass, 'ClassMixin.py__mro__')
 
 
+def _star(mod, g):
+    """ModuleMixin.star_imports: the memoiser's re-entry default (the decorator's argument), the
+    statement skeleton, and the test in front of the recursive call"""
+    fn = mod.find('ModuleMixin.star_imports')
+    where = 'jedi/inference/value/module.py:ModuleMixin.star_imports'
+    decos = [u(d) for d in fn.decorator_list]
+    g.define('starDecorators', 'List String', lean_list(decos), where)
+    memo = [d for d in fn.decorator_list if isinstance(d, ast.Call) and u(d.func) == 'inference_state_method_cache']
+    if len(memo) != 1 or len(fn.decorator_list) != 1 or memo[0].keywords and \
+            [k.arg for k in memo[0].keywords] != ['default']:
+        raise TieBroken('module.py: star_imports is not decorated by exactly inference_state_method_cache(..)',
+                        repr(decos))
+    args = list(memo[0].args) + [k.value for k in memo[0].keywords]
+    if not args:
+        default = 'none'        # _NO_DEFAULT: nothing is stored before the body runs
+    elif len(args) == 1 and isinstance(args[0], ast.List) and not args[0].elts:
+        default = 'some []'
+    else:
+        raise TieBroken('module.py: the default of star_imports\' memoiser is neither absent nor []', repr(decos))
+    g.define('starDefault', 'Option (List Nat)', default, where + ' (argument of the memoiser: value stored '
+             'under the key while the body runs)')
+    steps = []
+    _skeleton([n for n in fn.body if not isinstance(n, (ast.Import, ast.ImportFrom))], steps,
+              'module.py: star_imports')
+    g.define('starSteps', 'List String', lean_list(steps), where)
+    rec = [n for n in ast.walk(fn) if isinstance(n, ast.If)
+           and any(isinstance(c, ast.Call) and u(c.func).endswith('.star_imports') for b in n.body for c in ast.walk(b))]
+    rec = [n for n in rec if not any(m is not n and any(m is x for x in ast.walk(n)) for m in rec)]
+    if len(rec) != 1:
+        raise TieBroken('module.py: star_imports has no single `if` around its recursive call', repr(len(rec)))
+    test = u(rec[0].test)
+    if test == 'isinstance(module, ModuleValue)':
+        skip = 'false'
+    elif test == 'isinstance(module, ModuleValue) and module is not self':
+        skip = 'true'
+    else:
+        raise TieBroken('module.py: unknown test in front of the recursive star_imports() call', test)
+    g.define('starRecursionTest', 'String', lean_list([test])[1:-1], where + ' (test before module.star_imports())')
+    g.define('starSkipSelf', 'Bool', skip, where + ' (the test excludes the module itself)')
+    g.fp(mod, 'ModuleMixin.star_imports')
+
+
 def generate(repo, g):
     _mro(Src(repo, 'jedi/inference/value/klass.py'), g)
+    _star(Src(repo, 'jedi/inference/value/module.py'), g)
     rec = Src(repo, 'jedi/inference/recursion.py')
     cache = Src(repo, 'jedi/inference/cache.py')
     st = Src(repo, 'jedi/inference/syntax_tree.py')
